@@ -10,6 +10,11 @@ theorem inv_lazy_irrel {cfg : Cfg} {s : State} (h : Inv cfg s) (rs : List (ResId
     Inv cfg { s with results := rs, iters := is } :=
   ⟨h.confs, h.pals, h.live, h.cache, h.nc, h.subs, h.enums, h.cur, h.subcur, h.glob, h.gp⟩
 
+theorem frame_lazy (s : State) (rs : List (ResId × Res)) (is : List (IterId × Iter)) :
+    Frame s { s with results := rs, iters := is } :=
+  ⟨fun _ _ h => h, fun _ c h => ⟨c, h, rfl, rfl, Nat.le_refl _, fun _ => ⟨rfl, fun _ _ hh => hh⟩⟩,
+   fun _ _ h => h, fun _ ec h => ⟨ec, h⟩⟩
+
 theorem fillOne_enumKeys (s : State) (p : Addr) (t : Tag) :
     ∀ e ec, s.enums.lookup e = some ec → ∃ ec', (fillOne s p t).enums.lookup e = some ec' := by
   intro e ec h
@@ -289,6 +294,77 @@ theorem stepLines_pure {cfg : Cfg} (hcfg : cfgOk cfg = true) (hko : cfg.keyByObj
             simp only [List.map_cons, e2, paintLine]
             subst ecs
             cases l.line.kind <;> rfl
+
+/-- generating the same lines a second time, in any later state, gives the same lines: every colour read the first
+time is read again (no hypothesis on the configuration) -/
+theorem stepLines_again {cfg : Cfg} (hcfg : cfgOk cfg = true) (hko : cfg.keyByObj = true) {alloc alloc' : Alloc}
+    (hal : ValidAlloc alloc) (hal' : ValidAlloc alloc') (p : Addr) (top : ClassId) :
+    ∀ (ls : List LLine) (s s1 t t1 : State) (outs1 outs2 : List (List Chunk)), Inv cfg s → Inv cfg t →
+      stepLines cfg alloc p top ls s = .ok (s1, outs1) → Frame s1 t →
+      stepLines cfg alloc' p top ls t = .ok (t1, outs2) → outs2 = outs1 := by
+  intro ls
+  induction ls with
+  | nil =>
+    intro s s1 t t1 outs1 outs2 _ _ h1 _ h2
+    simp [stepLines] at h1 h2
+    rw [h1.2, h2.2]
+  | cons l rest ih =>
+    intro s s1 t t1 outs1 outs2 his hit h1 hfr h2
+    simp only [stepLines, bind, Except.bind] at h1 h2
+    cases a1 : stepLine cfg alloc p top l s with
+    | error e => simp [a1] at h1
+    | ok r1 =>
+      obtain ⟨s', out⟩ := r1
+      simp only [a1] at h1
+      cases b1 : stepLines cfg alloc p top rest s' with
+      | error e => simp [b1] at h1
+      | ok r1' =>
+        obtain ⟨s1', outs⟩ := r1'
+        simp only [b1] at h1
+        cases h1
+        cases a2 : stepLine cfg alloc' p top l t with
+        | error e => simp [a2] at h2
+        | ok r2 =>
+          obtain ⟨t', out2⟩ := r2
+          simp only [a2] at h2
+          cases b2 : stepLines cfg alloc' p top rest t' with
+          | error e => simp [b2] at h2
+          | ok r2' =>
+            obtain ⟨t1', outs'⟩ := r2'
+            simp only [b2] at h2
+            cases h2
+            obtain ⟨his', _⟩ := stepLine_spec hcfg hal his a1
+            obtain ⟨hit', hfrt⟩ := stepLine_spec hcfg hal' hit a2
+            obtain ⟨_, hfr_rest⟩ := stepLines_spec hcfg hal p top rest s' _ _ his' b1
+            have etail := ih s' _ t' _ _ _ his' hit' b1 (hfr.trans hfrt) b2
+            -- the line itself
+            unfold stepLine at a1 a2
+            simp only [bind, Except.bind] at a1 a2
+            cases g1 : getSubs cfg alloc p l.reqs s with
+            | error e => simp [g1] at a1
+            | ok sa =>
+              simp only [g1] at a1
+              obtain ⟨hia, _⟩ := getSubs_spec hcfg hal p l.reqs s sa his g1
+              cases c1 : colorChunks sa p top l.line.chunks with
+              | error e => simp [c1] at a1
+              | ok cs =>
+                simp only [c1] at a1
+                cases a1
+                cases g2 : getSubs cfg alloc' p l.reqs t with
+                | error e => simp [g2] at a2
+                | ok ta =>
+                  simp only [g2] at a2
+                  obtain ⟨hita, hfrta⟩ := getSubs_spec hcfg hal' p l.reqs t ta hit g2
+                  cases c2 : colorChunks ta p top l.line.chunks with
+                  | error e => simp [c2] at a2
+                  | ok cs2 =>
+                    simp only [c2] at a2
+                    cases a2
+                    have hfa : Frame sa ta := (((fill_frame p _ sa).trans hfr_rest).trans hfr).trans hfrta
+                    have := colorChunks_mono hko hia hita hfa p top l.line.chunks cs c1
+                    rw [this] at c2
+                    cases c2
+                    rw [etail]
 
 /-! ### what a lazy result holds stays alive -/
 
